@@ -2,6 +2,8 @@
    Rust harness), runs every case through [Vfsmodel.run_case] and prints one
    observation line per op.  Parsing and printing only; no model logic here. *)
 open Vfsmodel
+type path = n list list
+type bytes = n list
 
 let rec pos_of_int i = if i = 1 then XH else if i land 1 = 0 then XO (pos_of_int (i lsr 1)) else XI (pos_of_int (i lsr 1))
 let n_of_int i = if i = 0 then N0 else Npos (pos_of_int i)
